@@ -210,7 +210,7 @@ theorem inv_step (c c' : CS) (h : Inv c) (hs : Step c c') : Inv c' := by
       · simp only [List.mem_singleton] at h1; rw [h1] at hb'; cases hb'
   | recvCredit v rest hb =>
     refine ⟨?_, h.pre, h.dataOk, ?_⟩
-    · show c.sOut + v + creditsIn rest = _
+    · show c.sOut + v + creditsIn rest = replay c.r.current_window_size c.q
       have := h.eq; rw [hb, creditsIn_cons_credit] at this; omega
     · intro b hb' v' hv'
       exact h.creditsNonneg b (by rw [hb]; exact List.mem_cons_of_mem _ hb') v' hv'
@@ -287,10 +287,10 @@ theorem data_never_overruns (w : WindowManager) (c : CS)
 /-- non-vacuity: the sender has 100 bytes in flight when the receiver cuts the window to below them; the sender's
     view goes negative, the acknowledgement follows the data, and the data is still accepted -/
 example : ∃ c, Reach { sOut := 65535, r := { max_window_size := 65535, current_window_size := 65535, bytes_processed := 0 },
-                       q := [], back := [] } c ∧ c.sOut = -65435 ∧ c.q.length = 2 := by
-  refine ⟨_, Reach.step _ _ (Reach.step _ _ (Reach.step _ _ Reach.init (Step.send _ 100 (by omega) (Or.inl (by show (100 : Int) ≤ 65535; omega))))
+                       q := [], back := [] } c ∧ c.sOut = -100 ∧ c.q.length = 2 := by
+  refine ⟨_, Reach.step _ _ (Reach.step _ _ (Reach.step _ _ Reach.init (Step.send _ 100 (by decide) (Or.inl (by decide))))
     (Step.settings _ (-65535))) (Step.recvSettings _ (-65535) [] rfl), ?_, ?_⟩
-  · show (65535 : Int) - 100 + -65535 = -65435; omega
+  · decide
   · rfl
 
 end PairCredit
